@@ -90,6 +90,35 @@ where
     | [] => true
     | (_, x) :: xs => clean x && cleanMap xs
 
+/-! ### `=` on composite values: the three-valued AND of the element equalities -/
+
+/-- Kleene conjunction of a list of truth values: `false` if some element is false, else `null` if some
+    element is unknown, else `true` — independent of the order of the elements -/
+def kleeneAll : List Tri → Tri
+  | [] => some true
+  | t :: ts => and3 t (kleeneAll ts)
+
+/-- Cypher `=`: `null` if an operand is null; numbers by value; strings as text; lists: different lengths are
+    unequal, otherwise the Kleene AND of the pairwise equalities; maps: different key sets are unequal, otherwise
+    the Kleene AND over the keys; every other pair of values of one kind structurally; different kinds unequal. -/
+def eq3 : Value → Value → Tri
+  | .null, _ => none
+  | _, .null => none
+  | .list xs, .list ys => if xs.length != ys.length then some false else eq3List xs ys
+  | .map xs, .map ys =>
+    if xs.map Prod.fst != ys.map Prod.fst then some false else eq3Map xs ys
+  | a, b =>
+    match numVal a, numVal b with
+    | some _, some _ => some (numCmp a b == some .eq)
+    | _, _ => some (same a b)
+where
+  eq3List : List Value → List Value → Tri
+    | x :: xs, y :: ys => and3 (eq3 x y) (eq3List xs ys)
+    | _, _ => some true
+  eq3Map : List (Str × Value) → List (Str × Value) → Tri
+    | (_, x) :: xs, (_, y) :: ys => and3 (eq3 x y) (eq3Map xs ys)
+    | _, _ => some true
+
 /-- openCypher orderability of the kinds of value, ascending:
     MAP < NODE < RELATIONSHIP < LIST < PATH < STRING < BOOLEAN < NUMBER < (engine-specific: datetime < blob) < NULL -/
 def typeRank : Value → Nat
